@@ -38,6 +38,7 @@ func (s *Solutions) Close() error {
 	s.closed = true
 	// Wait for the search to end, if there is one. It may still set s.err, e.g. if the context is done.
 	if s.next != nil {
+		simYield(s, "U:close-wait")
 		for range s.next {
 		}
 	}
